@@ -6,3 +6,4 @@ import Spade.Properties.C09
 #print axioms Spade.C09_face_excludes_outside
 #print axioms Spade.C09_locate_sound
 #print axioms Spade.C09_step_sound
+#print axioms Spade.C09_locate_sound_on_model
